@@ -186,6 +186,12 @@ def localise(orc, t, ctx):
 def test_tree(chk, st, orc, t, ctx, enum_label=None):
     """Run one tree; record stats; returns violation triple or None."""
     exp = G.canon(t)
+    if ctx == 'query' and re.search(r'\bxor\b', G.render(t, 'min')):
+        # keywords.cpp gives 'xor' to the model syntax only (syntax_t::NEW; and / or / not / imply are OLD_NEW_PROPERTY): in a query the word is an
+        # identifier, the text is not a syntactically valid expression there and lies outside the statement
+        st.extra['query_context_xor_is_not_a_keyword_there_(not_judged)'] += 1
+        st.evaluations += 1
+        return None
     nops = G.count_ops(t)
     differ = G.render(t, 'min') != G.render(t, 'full')
     st.case(exp + '|' + ctx, nontrivial=(nops >= 2 and differ),
